@@ -288,6 +288,7 @@ def check(prog, rep, tier):
     pa = prog.func(UPD + '.parse_attributes')
     ptab = dispatch_table(prog, pa)
     n = 0
+    branches = []
     for node in ast.walk(ca.node):
         if isinstance(node, ast.If) and isinstance(node.test, ast.Compare) and src_of(node.test.left) == 'type_code':
             code = prog.try_fold(node.test.comparators[0], ca.module, ca.cls)
@@ -296,8 +297,15 @@ def check(prog, rep, tier):
                 if isinstance(c, ast.Call) and isinstance(c.func, ast.Attribute) and c.func.attr == 'construct':
                     r = c.func.value
                     cls = src_of(r.func) if isinstance(r, ast.Call) else src_of(r)
-            if code is None or cls is None:
+            if code is None or cls is None or isinstance(code, (dict, list, tuple, set)):
                 continue
+            branches.append((code, cls, node))
+    # encoders dispatched through a table: `if type_code in TABLE: TABLE[type_code].construct(value=value)`
+    for code, (cls, _a4, line) in sorted(dispatch_table(prog, ca, methods=('construct',)).items(), key=lambda kv: repr(kv[0])):
+        if code not in [b[0] for b in branches]:
+            branches.append((code, cls[:-2] if cls.endswith('()') else cls, ast.copy_location(ast.Pass(), ca.node)))
+    for code, cls, node in branches:
+        if True:
             n += 1
             key = 'codec:%s' % code
             if code == 23:
